@@ -166,33 +166,42 @@ Resolvable(c, a) == c.aux \/ ~HasMain(Assemble(c, a))
 \* ---------------------------------------------------------------- the enumerated space
 Inodes(kinds, s) == {[k |-> k, s |-> s] : k \in kinds}
 None == [k |-> "none", s |-> ""]
+\* names: an ordinary profile for the full product of inode kinds, and two profiles whose framer / frame / tag / actor
+\* names are proper substrings resp. superstrings of the key words me, main, framer, frame, actor (an explicit name is
+\* a name, however it is spelled) for a small set of inode kinds (names and inodes do not interact)
+PlainNames == [F |-> "fa", G |-> "fb", S |-> "sub", tag |-> "c1", f0 |-> "f0", f1 |-> "f1", g1 |-> "g1", s0 |-> "s0", s1 |-> "s1", A |-> "worker"]
+SubNames == [F |-> "ma", G |-> "m", S |-> "ai", tag |-> "n", f0 |-> "e", f1 |-> "mai", g1 |-> "ain", s0 |-> "a", s1 |-> "i", A |-> "m"]
+SupNames == [F |-> "main2", G |-> "mex", S |-> "framers", tag |-> "me2", f0 |-> "frame1", f1 |-> "actor1", g1 |-> "mainly", s0 |-> "mes",
+             s1 |-> "framer2", A |-> "actors"]
+Ctx(nm, x, fi, oi, ni, ci, so, si) ==
+    [aux |-> x, F |-> nm.F, G |-> nm.G, S |-> nm.S, tag |-> nm.tag, f0 |-> nm.f0, f1 |-> nm.f1, g1 |-> nm.g1, s0 |-> nm.s0, s1 |-> nm.s1,
+     A |-> nm.A, fi |-> fi, oi |-> oi, ni |-> ni, ci |-> ci, so |-> so, si |-> si]
 Contexts ==
-    {[aux |-> x, F |-> "fa", G |-> "fb", S |-> "sub", tag |-> "c1", f0 |-> "f0", f1 |-> "f1", g1 |-> "g1", s0 |-> "s0", s1 |-> "s1",
-      fi |-> fi, oi |-> oi, ni |-> ni, ci |-> ci, so |-> so, si |-> si] :
-       x \in {FALSE}, fi \in Inodes(FIs, "qf"), oi \in Inodes(OIs, "qo"), ni \in Inodes(NIs, "qn"),
-       ci \in {None}, so \in {None}, si \in {None}}
-    \cup
-    {[aux |-> x, F |-> "fa", G |-> "fb", S |-> "sub", tag |-> "c1", f0 |-> "f0", f1 |-> "f1", g1 |-> "g1", s0 |-> "s0", s1 |-> "s1",
-      fi |-> fi, oi |-> oi, ni |-> ni, ci |-> ci, so |-> so, si |-> si] :
-       x \in {TRUE} \cap AuxModes, fi \in Inodes(FIs, "qf"), oi \in Inodes(OIs, "qo"), ni \in Inodes(NIs, "qn"),
-       ci \in Inodes(CIs, "qc"), so \in Inodes(SOs, "qp"), si \in Inodes(SIs, "qs")}
+    {Ctx(PlainNames, FALSE, fi, oi, ni, None, None, None) : fi \in Inodes(FIs, "qf"), oi \in Inodes(OIs, "qo"), ni \in Inodes(NIs, "qn")}
+    \cup {Ctx(PlainNames, x, fi, oi, ni, ci, so, si) :
+             x \in {TRUE} \cap AuxModes, fi \in Inodes(FIs, "qf"), oi \in Inodes(OIs, "qo"), ni \in Inodes(NIs, "qn"),
+             ci \in Inodes(CIs, "qc"), so \in Inodes(SOs, "qp"), si \in Inodes(SIs, "qs")}
+    \cup {Ctx(nm, FALSE, fi, None, None, None, None, None) : nm \in {SubNames, SupNames}, fi \in Inodes(FIs \cap {"none", "rel"}, "qf")}
+    \cup {Ctx(nm, x, fi, None, None, ci, None, None) :
+             nm \in {SubNames, SupNames}, x \in {TRUE} \cap AuxModes, fi \in Inodes(FIs \cap {"none", "rel"}, "qf"),
+             ci \in Inodes(CIs \cap {"none", "rel"}, "qc")}
 
 \* user path texts: one, two and three segments; one segment spelled like the framer's name
-UserPaths == {<<"x">>, <<"a", "x">>, <<"fa", "x">>, <<"a", "b", "x">>}
+UserPaths(c) == {<<"x">>, <<"a", "x">>, <<c.F, "x">>, <<"a", "b", "x">>}
 
 Ref(form, segs, n1, n2, n3) == [form |-> form, segs |-> segs, n1 |-> n1, n2 |-> n2, n3 |-> n3]
 FramerNames(c) == {"", "me", c.G} \cup (IF c.aux THEN {"main", c.F} ELSE {c.F})
 FrameNames(c) == {"", "me"} \cup (IF c.aux THEN {"main", c.s0} ELSE {c.f0})
 RefsIn(c) ==
-    {Ref("abs", u, "-", "-", "-") : u \in UserPaths \cup {<<"framer", "fa", "x">>}}
-    \cup {Ref(fm, u, "-", "-", "-") : fm \in {"root", "me"}, u \in UserPaths}
+    {Ref("abs", u, "-", "-", "-") : u \in UserPaths(c) \cup {<<"framer", c.F, "x">>}}
+    \cup {Ref(fm, u, "-", "-", "-") : fm \in {"root", "me"}, u \in UserPaths(c)}
     \cup {Ref("framer", u, n, "-", "-") : u \in {<<"x">>, <<"a", "x">>}, n \in FramerNames(c)}
-    \cup {Ref("frame", u, n, "-", "-") : u \in {<<"x">>, <<"fa", "x">>}, n \in FrameNames(c)}
+    \cup {Ref("frame", u, n, "-", "-") : u \in {<<"x">>, <<c.F, "x">>}, n \in FrameNames(c)}
     \cup {Ref("frame", <<"x">>, n, m, "-") : n \in {"", "me", c.f0}, m \in {"", "me", c.F}}
     \cup {Ref("frame", <<"x">>, c.g1, c.G, "-")}
     \cup (IF c.aux THEN {Ref("frame", <<"x">>, "main", m, "-") : m \in {"", "main"}} ELSE {})
     \cup {Ref("actor", u, n, "-", "-") : u \in {<<"x">>, <<"a", "x">>}, n \in {"", "me"}}
-    \cup {Ref("actor", <<"x">>, "worker", "-", "-"), Ref("actor", <<"x">>, "", "", "-"), Ref("actor", <<"x">>, "me", "me", "me")}
+    \cup {Ref("actor", <<"x">>, c.A, "-", "-"), Ref("actor", <<"x">>, "", "", "-"), Ref("actor", <<"x">>, "me", "me", "me")}
 
 Absent == [k |-> "absent", s |-> ""]
 \* plain acts carry no inode; a deed carries the via clause and per-clause paths (written as data: no relation clause)
@@ -207,7 +216,7 @@ DeedRefs(c) == {Ref("inode", <<>>, "-", "-", "-"), Ref("root", <<"x">>, "-", "-"
                 Ref("me", <<"x">>, "-", "-", "-"), Ref("abs", <<"a", "x">>, "-", "-", "-"), Ref("framer", <<"x">>, "me", "-", "-")}
                \cup (IF c.aux THEN {Ref("framer", <<"x">>, "main", "-", "-")} ELSE {})
 Deed(an, ai, r) == [verb |-> "do", an |-> an, ai |-> ai, ref |-> r]
-DeedActs(c) == {Deed(<<"worker">>, ai, r) : ai \in Inodes(AIs, "qa"), r \in DeedRefs(c)}
+DeedActs(c) == {Deed(<<c.A>>, ai, r) : ai \in Inodes(AIs, "qa"), r \in DeedRefs(c)}
                \cup {Deed(<<"work", "horse">>, ai, r) : ai \in Inodes(AIs \cap {"none", "frame"}, "qa"),
                                                        r \in {Ref("inode", <<>>, "-", "-", "-"), Ref("root", <<"x">>, "-", "-", "-")}}
 ActsIn(c) == {a \in PlainActs(c) \cup DeedActs(c) : Resolvable(c, a)}
@@ -216,12 +225,13 @@ ActsIn(c) == {a \in PlainActs(c) \cup DeedActs(c) : Resolvable(c, a)}
 \* rho = [kind, old]: kind in framer / frame / actor / tag
 Renamings(c) == {[kind |-> "framer", old |-> n] : n \in {c.F, c.G, c.S}}
                 \cup {[kind |-> "frame", old |-> n] : n \in {c.f0, c.f1, c.g1, c.s0, c.s1}}
-                \cup {[kind |-> "tag", old |-> c.tag], [kind |-> "actor", old |-> "worker"], [kind |-> "actor", old |-> "work"]}
+                \cup {[kind |-> "tag", old |-> c.tag], [kind |-> "actor", old |-> c.A], [kind |-> "actor", old |-> "work"]}
 
 Ren(rho, kind, n) == IF rho.kind = kind /\ n = rho.old THEN Fresh ELSE n
 RenCtx(rho, c) == [c EXCEPT !.F = Ren(rho, "framer", @), !.G = Ren(rho, "framer", @), !.S = Ren(rho, "framer", @),
                             !.f0 = Ren(rho, "frame", @), !.f1 = Ren(rho, "frame", @), !.g1 = Ren(rho, "frame", @),
-                            !.s0 = Ren(rho, "frame", @), !.s1 = Ren(rho, "frame", @), !.tag = Ren(rho, "tag", @)]
+                            !.s0 = Ren(rho, "frame", @), !.s1 = Ren(rho, "frame", @), !.tag = Ren(rho, "tag", @),
+                            !.A = Ren(rho, "actor", @)]
 \* in a reference only the name positions are renamed (never the user's path text)
 RenRef(rho, r) ==
     CASE r.form = "framer" -> [r EXCEPT !.n1 = Ren(rho, "framer", @)]
